@@ -35,6 +35,7 @@ def run(ctx):
     ctx.guard(rule_c, ctx, ix)
     ctx.guard(rule_d, ctx, ix)
     ctx.guard(rule_e, ctx, ix)
+    ctx.guard(rule_f, ctx, ix)
 
 
 def rule_a(ctx, ix):
@@ -297,3 +298,50 @@ def rule_e(ctx, ix):
                           shape=it, where='%s:%d' % (mod.relpath, c.lineno))
     if n < 4:
         raise AnalysisError('C06.e: only %d subset-deleting loops found' % n)
+
+
+def rule_f(ctx, ix):
+    """The 'dataset added' handler of a group is idempotent: registration already covers every dataset of the collection, and the
+    hub can deliver the message later (delay_callbacks), so the handler must not add a second subset for a dataset it already has."""
+    R = 'C06.f'
+    ctx.describe(R, 'the group\'s dataset-added handler adds a member only for a dataset it has no member for', floor=2)
+    sg = ix.cls(SG)
+    reg = sg.resolve_func('register')
+    covers = any(isinstance(x, ast.For) and unparse(x.iter) in ('data', reg.params[1]) for x in ast.walk(reg.node)) and \
+        any(call_name(c) == 'GroupedSubset' for c in calls_in(reg.node))
+    hub = ix.cls('glue.core.hub.Hub')
+    delayed = hub.resolve_func('delay_callbacks') is not None
+    ctx.ob(R, reg.construct, 'registration creates a member for every dataset already in the collection (read from the code: %s); '
+                             'delivery can be deferred (Hub.delay_callbacks: %s)' % (covers, delayed), True, nontrivial=False)
+    f = sg.resolve_func('_add_data')
+    if f is None:
+        raise AnalysisError('SubsetGroup._add_data vanished')
+    if not (covers and delayed):
+        ctx.unmodelled(R, f.construct, 'registration no longer covers existing datasets or delivery cannot be deferred: idempotence not needed')
+        return
+    s, p = f.self_name, f.params[1]
+    adds = [c for c in calls_in(f.node) if call_name(c) in ('append', 'insert') and unparse(c.func.value) == '%s.subsets' % s]
+    if not adds:
+        raise AnalysisError('SubsetGroup._add_data: the membership write is no longer recognised')
+    from ..cfg import CFG
+    cfg = CFG(f.node)
+    # a membership guard: an If whose test looks at the datasets of the existing members and compares with the parameter
+    guards = []
+    for g in walk_no_nested(f.node):
+        if isinstance(g, ast.If):
+            t = unparse(g.test)
+            if '%s.subsets' % s in t and p in [x.id for x in ast.walk(g.test) if isinstance(x, ast.Name)] and '.data' in t:
+                guards.append(g)
+    ok = False
+    for g in guards:
+        early = any(isinstance(x, ast.Return) for x in g.body)
+        inside_else = any(any(a is y for y in ast.walk(ast.Module(body=g.orelse, type_ignores=[]))) for a in adds) if g.orelse else False
+        negated = isinstance(g.test, ast.UnaryOp) and isinstance(g.test.op, ast.Not) or ' not in ' in unparse(g.test)
+        inside_body = any(any(a is y for y in ast.walk(ast.Module(body=g.body, type_ignores=[]))) for a in adds)
+        if (early and all(a.lineno > g.end_lineno for a in adds)) or inside_else or (negated and inside_body):
+            ok = True
+    ctx.idiom(R, f.construct, 'a member is added only when the group has none for that dataset', accepted=ok, absent=not guards,
+              detail_absent='SubsetGroup._add_data adds a grouped subset for the dataset unconditionally: when the dataset-added message '
+                            'is delivered after the group was registered with that dataset already in the collection (both inside one '
+                            'hub.delay_callbacks() block), the dataset gets two subsets for the group',
+              shape='; '.join(unparse(g.test) for g in guards), where=f.where)
